@@ -19,6 +19,11 @@
 #include <upipe/uqueue.h>
 #include <upipe/udeal.h>
 #include "../sim/upump_sim.h"
+#include "../sim/alloc.h"
+#include <upipe/umem.h>
+#include <upipe/ubuf.h>
+#include <upipe/ubuf_block.h>
+#include <upipe/ubuf_block_mem.h>
 
 #include <stdlib.h>
 #include <string.h>
@@ -70,6 +75,7 @@ enum {
     OP_QPUSH,                                       /* C08 */
     OP_USE, OP_RELEASE,                             /* C09 */
     OP_DEAL_ENTER, OP_DEAL_ABORT,                   /* C08 dealer */
+    OP_BDUP, OP_BSPLICE, OP_BFREE,                  /* C09 buffers */
 };
 
 static const char *op_name(int code)
@@ -84,6 +90,9 @@ static const char *op_name(int code)
     case OP_RELEASE: return "release";
     case OP_DEAL_ENTER: return "deal_enter";
     case OP_DEAL_ABORT: return "deal_start_then_abort";
+    case OP_BDUP: return "ubuf_dup";
+    case OP_BSPLICE: return "ubuf_block_splice";
+    case OP_BFREE: return "ubuf_free";
     }
     return "?";
 }
@@ -991,6 +1000,142 @@ static void run_c09(const struct sim_plan *plan)
     urefcount_clean(&c9.ref);
 }
 
+
+/* ===================================================== C09, memory areas */
+static struct {
+    const struct sim_plan *plan;
+    struct ubuf_mgr *mgr;
+    struct umem_mgr *umem;
+    struct ubuf *h[4][8];
+    int nh[4];
+    int outstanding;            /* handles the harness knows are alive */
+    int area_freed;
+} c9b;
+
+static void c9b_free_observer(void)
+{
+    sim_ev("umem_free", (uint64_t)c9b.outstanding, 0);
+    if (c9b.area_freed)
+        sim_violation(V_REF_TWICE, "memory area returned to its allocator twice");
+    else if (c9b.outstanding != 0)
+        sim_violation(V_REF_EARLY, "memory area returned to its allocator while %d buffer(s) still use it",
+                      c9b.outstanding);
+    c9b.area_freed++;
+}
+
+static void c9b_task(void *arg)
+{
+    int me = (int)(intptr_t)arg;
+    const struct sim_plan *plan = c9b.plan;
+    for (int i = 0; i < plan->nops && !sim_violation_class(); i++) {
+        const struct sim_op *op = &plan->ops[i];
+        if (op->task != me || c9b.nh[me] == 0)
+            continue;
+        int k = (int)((uint64_t)op->a[0] % (uint64_t)c9b.nh[me]);
+        if (c9b.area_freed) {
+            sim_violation(V_REF_AFTER, "t%d still holds %d buffer(s) on a freed area", me, c9b.nh[me]);
+            return;
+        }
+        switch (op->code) {
+        case OP_BDUP:
+        case OP_BSPLICE: {
+            if (c9b.nh[me] >= 8)
+                break;
+            /* counted before the call: never below the true number */
+            c9b.outstanding++;
+            struct ubuf *u = op->code == OP_BDUP ? ubuf_dup(c9b.h[me][k])
+                             : ubuf_block_splice(c9b.h[me][k], (int)((uint64_t)op->a[1] % 8), 4);
+            sim_ev("dup", (uint64_t)me, u != NULL);
+            if (u == NULL) {
+                c9b.outstanding--;
+                break;
+            }
+            c9b.h[me][c9b.nh[me]++] = u;
+            break;
+        }
+        case OP_BFREE: {
+            struct ubuf *u = c9b.h[me][k];
+            c9b.h[me][k] = c9b.h[me][--c9b.nh[me]];
+            c9b.outstanding--;
+            sim_ev("free", (uint64_t)me, 0);
+            ubuf_free(u);
+            break;
+        }
+        }
+    }
+    while (c9b.nh[me] > 0 && !sim_violation_class()) {
+        if (c9b.area_freed) {
+            sim_violation(V_REF_AFTER, "t%d still holds %d buffer(s) on a freed area", me, c9b.nh[me]);
+            return;
+        }
+        struct ubuf *u = c9b.h[me][--c9b.nh[me]];
+        c9b.outstanding--;
+        sim_ev("free", (uint64_t)me, 1);
+        ubuf_free(u);
+    }
+}
+
+static void gen_c09b(struct sim_rng *r, struct sim_plan *p)
+{
+    p->cfg[CFG_KIND] = 1;
+    int ntasks = 2 + (int)sim_rng_below(r, 2);
+    p->cfg[CFG_NTASKS] = ntasks;
+    p->cfg[CFG_GRANT] = sim_rng_below(r, 1u << 6);
+    p->cfg[CFG_CAP] = sim_rng_below(r, 3);          /* pool depth selector */
+    for (int t = 0; t < ntasks; t++) {
+        int n = 1 + (int)sim_rng_below(r, 4);
+        for (int i = 0; i < n; i++) {
+            uint32_t c = sim_rng_below(r, 10);
+            sim_plan_add(p, t, c < 2 ? OP_BDUP : c < 4 ? OP_BSPLICE : OP_BFREE,
+                         sim_rng_below(r, 8), sim_rng_below(r, 8), 0, 0, 0, 0);
+        }
+    }
+}
+
+static void run_c09b(const struct sim_plan *plan)
+{
+    memset(&c9b, 0, sizeof(c9b));
+    c9b.plan = plan;
+    int ntasks = 1 + (int)((uint64_t)(plan->cfg[CFG_NTASKS] - 1) % 3);
+    static const uint16_t depth[] = { 0, 2, 8 };
+    uint16_t d = depth[(uint64_t)plan->cfg[CFG_CAP] % 3];
+    sim_set_strategy(-1, 80);
+    sim_alloc_reset();
+    c9b.umem = umem_sim_mgr_alloc(0);
+    c9b.mgr = ubuf_block_mem_mgr_alloc(d, d, c9b.umem, 0, 0, 0, 0);
+    struct ubuf *first = ubuf_block_alloc(c9b.mgr, 16);
+    umem_sim_free_observer = c9b_free_observer;
+    /* every holder starts with 1-2 buffers on the same memory area */
+    for (int t = 0; t < ntasks; t++) {
+        int n = 1 + (int)(((uint64_t)plan->cfg[CFG_GRANT] >> (2 * t)) & 1);
+        for (int i = 0; i < n; i++) {
+            c9b.h[t][c9b.nh[t]++] = (t == 0 && i == 0) ? first : ubuf_dup(first);
+            c9b.outstanding++;
+        }
+    }
+    for (int t = 0; t < ntasks; t++)
+        sim_spawn(c9b_task, (void *)(intptr_t)t, "holder", 512 * 1024);
+    enum sim_end end = sim_run(20000);
+    umem_sim_free_observer = NULL;
+    if (sim_violation_class())
+        return;
+    if (end != SIM_END_DONE) {
+        SIM_PROBE("c09_budget_exhausted");
+        return;
+    }
+    if (c9b.outstanding == 0 && c9b.area_freed != 1)
+        sim_violation(V_REF_NEVER, "every buffer freed, memory area returned %d times", c9b.area_freed);
+    else if (umem_sim_live() != 0)
+        sim_violation(V_REF_NEVER, "%u memory area(s) still allocated", umem_sim_live());
+    ubuf_mgr_vacuum(c9b.mgr);
+    if (!sim_violation_class() && !urefcount_single(c9b.mgr->refcount))
+        sim_violation(V_REF_NEVER, "buffer manager not back to a single reference");
+    ubuf_mgr_release(c9b.mgr);
+    umem_mgr_release(c9b.umem);
+    if (!sim_violation_class() && sim_alloc_live() != 0)
+        sim_violation(V_REF_NEVER, "%u structure(s) left allocated", sim_alloc_live());
+}
+
 /* ================================================================== engine */
 static void gen(const char *prop, struct sim_rng *r, struct sim_plan *p)
 {
@@ -999,6 +1144,7 @@ static void gen(const char *prop, struct sim_rng *r, struct sim_plan *p)
         if (sim_rng_chance(r, 1, 3)) gen_c08_deal(r, p);
         else gen_c08(r, p);
     }
+    else if (sim_rng_chance(r, 1, 2)) gen_c09b(r, p);
     else gen_c09(r, p);
 }
 
@@ -1009,6 +1155,7 @@ static void run(const char *prop, const struct sim_plan *plan)
         if (plan->cfg[CFG_KIND] == 1) run_c08_deal(plan);
         else run_c08(plan);
     }
+    else if (plan->cfg[CFG_KIND] == 1) run_c09b(plan);
     else run_c09(plan);
 }
 
